@@ -120,7 +120,17 @@ func New(maxConcurrent int, chQqueueSize int, v ...interface{}) *TaskPool {
 					tp.caller(f)
 				}
 			case <-tp.chClose:
-				return
+				// run the tasks that were handed to the pool before Stop.
+				for {
+					select {
+					case f := <-tp.chQqueue:
+						if f != nil {
+							tp.caller(f)
+						}
+					default:
+						return
+					}
+				}
 			}
 		}
 	}()
